@@ -45,15 +45,14 @@ prop( 'C16', [ 'T-RESERVED', 'D-DELEGATE', 'D-RESOLVE', 'D-UNPACK', 'D-ITER' ],
       not_decided='path semantics over operation sequences (lookup/iteration/copy agreement is a dynamic, history-dependent claim).',
       technique='name-set comparison over class AST; delegation-shape checks' )
 
-prop( 'C19', [ 'M-EXTENT', 'M-TILE', 'M-BANK', 'M-LIMIT', 'M-PIECES' ],
+prop( 'C19', [ 'M-EXTENT', 'M-TILE', 'M-BANK', 'M-LIMIT', 'M-PIECES', 'M-SNAPSHOT' ],
       decides='M-PIECES: every range merge yields is a piece of a shatter() generator that is consumed by the emitting loop only (a second use of the generator object would leave nothing to yield).  M-EXTENT: in merge\'s sorted sweep the running length update in the merge branch depends on its previous value '
               '(monotone join), so a nested/duplicate range cannot shrink the extent; M-TILE: shatter yields (address, taken) once, '
-              'advances address and shrinks count by the same taken = min( count, limit ); M-BANK: the merge condition conjoins the '
-              'same-10000-bank test with the strict reach test and nothing else (no condition may prevent overlapping ranges from merging), over sorted '
-              'input; M-LIMIT: merge passes its limit through unchanged to shatter( base, length, limit=limit ) and shatter deduces the per-bank default '
+              'advances address and shrinks count by the same taken = min( count, limit ); M-BANK: the merge condition, evaluated as a decision table over a grid of ( running range, next start, reach ) cells, merges exactly when the next range begins inside the running one ( whatever its 10000-block ) or lies in the same 10000-block with a gap below the reach; an empty range never extends the running range; over sorted '
+              'input;  M-SNAPSHOT: the poller hands merge a snapshot of the requested addresses ( one builtin call over self._data ), never an iteration over the live dict other threads extend; M-LIMIT: merge passes its limit through unchanged to shatter( base, length, limit=limit ) and shatter deduces the per-bank default '
               'from the address of the range it splits.  M-BANK also: the sweep is over all requested ranges (sorted( ranges ) itself, not a dict keyed by start address).',
       not_decided='disjointness/limit/reach arithmetic over all numeric inputs.',
-      technique='def-use shape of the sweep loop (AST); guard conjunct classification' )
+      technique='def-use shape of the sweep loop (AST); merge condition decided as a folded decision table; who-iterates-what rule for the shared address table' )
 
 prop( 'C20', [ 'T-TNET', 'P-CHAIN', 'G-CHUNK', 'G-REF', 'P-SEPARATORS' ],
       decides='T-TNET: every type tag dump/dump_dict/dump_list emits has a parse branch whose conversion is the enumerated inverse of '
